@@ -1,4 +1,5 @@
 """C02 — RwLock: writer exclusion, reader sharing, visibility, wake/sleep pairing, try_* non-blocking."""
+import re
 from ..engine.prov import const_value, strip_casts, walk, walk_deep, show
 from ..engine.atomics import is_acquire, is_release, target_of
 from ..engine.dtable import canon, true_rows
@@ -82,11 +83,30 @@ def run_one(ck, prog):
     cg = prog.callgraph()
 
     # ---- predicates: decision tables (part of C02.2) ----------------------------------
+    def norm_atoms(row):
+        """one spelling per bit test: the waiting-bit helpers written out, and `x & (A|B) == 0` split into its single-bit tests"""
+        out = set()
+        for a in row:
+            m = re.fullmatch(r"(!?)has_(readers|writers)_waiting\((.*)\)", a)
+            if m:
+                out.add(f"(({m.group(3)} BitAnd {RWAIT if m.group(2) == 'readers' else WWAIT}) {'Eq' if m.group(1) else 'Ne'} 0)")
+                continue
+            m = re.fullmatch(r"\(\((.*) BitAnd ([0-9() BitOr]+)\) (Eq|Ne) 0\)", a)
+            if m and re.fullmatch(r"[0-9() |]+", m.group(2).replace("BitOr", "|")):
+                mask = eval(m.group(2).replace("BitOr", "|"), {"__builtins__": {}})   # digits, parentheses and | only
+                bits = [b for b in (RWAIT, WWAIT) if mask & b]
+                if mask and mask == sum(bits) and (m.group(3) == "Eq" or len(bits) == 1):
+                    for b in bits:
+                        out.add(f"(({m.group(1)} BitAnd {b}) {m.group(3)} 0)")
+                    continue
+            out.add(a)
+        return sorted(out)
+
     def pred_rows(name):
         f = prog.fns.get(PRED(name))
         if not ck.anchor("C02.2", f"predicate {name}", f):
             return None
-        return sorted(sorted(r) for r in true_rows(prog.ctx(f)))
+        return sorted(norm_atoms(r) for r in true_rows(prog.ctx(f)))
     expect = {
         "is_unlocked": [[f"((p1 BitAnd {MASK}) Eq 0)"]],
         "is_write_locked": [[f"((p1 BitAnd {MASK}) Eq {WL})"]],
@@ -99,6 +119,7 @@ def run_one(ck, prog):
         rows = pred_rows(name)
         if rows is None:
             continue
+        exp = sorted(norm_atoms(r) for r in exp)
         ck.ob("C02.2", f"predicate-table|{name}", rows == exp, fn=PRED(name),
               detail=f"predicate {name} returns true under {rows}; the bit layout requires {exp}")
 
@@ -314,6 +335,15 @@ def run_one(ck, prog):
                             if f[0] == "truth" and isinstance(f[1], tuple) and f[1][0] == "call" and f[1][1] == PRED(pn) and f[2] is (not val):
                                 if derives_from_release(f[1][2][0], op, kind, consts):
                                     skip_edges.add((e.src, e.dst))
+                            # the helper written out: (X & M) == 0 with the predicate's bit in M
+                            bit = {"has_writers_waiting": WWAIT, "has_readers_waiting": RWAIT}.get(pn)
+                            if bit and val is True and f[0] == "cmp" and f[1] == "Eq" and 0 in (const_value(f[2]), const_value(f[3])):
+                                mexp = strip_casts(f[3] if const_value(f[2]) == 0 else f[2])
+                                if isinstance(mexp, tuple) and mexp[0] == "bin" and mexp[1] == "BitAnd":
+                                    for mk, x in ((mexp[2], mexp[3]), (mexp[3], mexp[2])):
+                                        mv = fold(mk)
+                                        if isinstance(mv, int) and mv & bit and derives_from_release(x, op, kind, consts):
+                                            skip_edges.add((e.src, e.dst))
                 if kind == "read-release":
                     # skipping the wake requires !is_unlocked or !has_writers_waiting: removing all such edges must cut every wake-free path
                     pass
@@ -813,7 +843,8 @@ def check_handoff(ck, prog, handoff, cls, STATE, NOTIFY, C):
         good = False
         if len(rets) == 1:
             r = strip_casts(rets[0])
-            if isinstance(r, tuple) and r[0] == "bin" and r[1] == "Ne" and const_value(r[3]) == 0:
+            unsigned0 = isinstance(r, tuple) and r[0] == "bin" and isinstance(r[3], tuple) and r[3][0] == "const" and str(r[3][3]).startswith("u")
+            if isinstance(r, tuple) and r[0] == "bin" and (r[1] == "Ne" or (r[1] == "Gt" and unsigned0)) and const_value(r[3]) == 0:
                 good = any(x[0] == "call" and x[1] in locks.WAKE_WRAPPERS for x in walk(r[2]))
         ck.ob("C02.7", "writer-wake-reports-woken", good, fn=wwf, detail="wake_writer must return whether a writer was actually woken (woken != 0)")
     # in the hand-off: CAS clearing WW -> followed by writer wake on all paths
